@@ -139,7 +139,25 @@ def impl_init():
             db = U.load_db("\n".join(c["lines"]) + "\n")
             try:
                 r = fingerprint_tcp(pkt if len(c["lines"]) % 2 else k, syn_mss=c["syn_mss"], options=Options(database=db))
+                if r.packet_signature.options.timestamp and len(c["lines"]) % 3 == 0:
+                    # the result's signature then serves as the REFERENCE of an uptime measurement (a later ACK of the host: 100 ticks in 1000 ms, a good reading):
+                    # what the result says about the SYN is still what the SYN's headers say
+                    import time as _t
+                    from pyp0f.fingerprint import fingerprint_uptime
+                    from harness import wire as W
+                    real = _t.time_ns
+                    try:
+                        _t.time_ns = lambda: (r.packet_signature.received + 1000) * 10 ** 6
+                        later = U.scapy_from_spec({"v": r.packet.ip.version, "flags": 0x10, "ack": 1, "seq": 5,
+                                                   "opts": "0101" + W.o_ts((r.packet_signature.options.timestamp + 100) % 2 ** 32 or 1, 1)})
+                        fingerprint_uptime(later, r.packet_signature)
+                    except PacketError:
+                        pass
+                    finally:
+                        _t.time_ns = real
                 extra = {"result_psig": U.psig_dict(r.packet_signature), "result_tcp_quirks": r.packet.tcp.quirks.value, "result_ip_quirks": r.packet.ip.quirks.value}
+                if r.packet.tcp.options.timestamp != r.packet_signature.options.timestamp:
+                    extra["result_psig"] = dict(extra["result_psig"], ts1="packet view %d" % r.packet.tcp.options.timestamp)
             except PacketError:
                 extra = {"result_psig": "PacketError"}
         return {**extra, "ok": {"ip": {"version": k.ip.version, "ttl": k.ip.ttl, "options_length": k.ip.options_length, "header_length": k.ip.header_length,
